@@ -98,6 +98,9 @@ def build(spec, small=False):
              fixed_effects={}, alphas=sorted(set(gen.random_alphas(rng))), el_noise_scale=0.05,
              aggregates=(["postal_code", "unit"] if not district else
                          gen.choice(rng, [["postal_code", "district", "unit"], ["district"], ["postal_code", "county_fips"]])))
+    if not district and i % 6 == 0:
+        # office is a free config field: a statewide office the library has no default aggregates for
+        o["el_office"] = gen.choice(rng, ["A", "L", "G_precinct"])
     el, feed, status, call = cases_mod.build(spec["seed"], PROPERTY, i, o)
     return el, feed, status, call, rng
 
